@@ -18,7 +18,16 @@ use serde_json::{json, Value};
 #[derive(Clone, Debug, Serialize, Deserialize, PartialEq)]
 pub enum Gen {
     /// qubits, depth, (p_cnot, p_cz, p_h, p_s, p_t) in 1/1000, preset (0 none, 1 clifford_t(p_t), 2 uniform)
-    Random { qubits: usize, depth: usize, p: [u32; 5], preset: u8 },
+    /// `tweaks`: setter calls made after the preset, in order: (0..=4, v) = p_cnot / p_cz / p_h /
+    /// p_s / p_t (v in 1/1000), (5, _) = with_cliffords(), (6, _) = uniform(), (7, v) = clifford_t(v)
+    Random {
+        qubits: usize,
+        depth: usize,
+        p: [u32; 5],
+        preset: u8,
+        #[serde(default)]
+        tweaks: Vec<(u8, u32)>,
+    },
     HiddenShift { qubits: usize, clifford_depth: usize, n_ccz: usize },
     PauliGadget { qubits: usize, depth: usize, min_weight: usize, max_weight: usize, phase_denom: usize },
     StabState { qubits: usize, hash_backend: bool },
@@ -73,7 +82,7 @@ fn build_hist(gen: &Gen, seed: u64, seed_pos: u8, batch: u8, history: u8) -> Vec
     let wseed = seed.wrapping_mul(0x9e37_79b9).wrapping_add(77);
     let wkind = seed % 3;
     match gen {
-        Gen::Random { qubits, depth, p, preset } => {
+        Gen::Random { qubits, depth, p, preset, tweaks } => {
             let mut b = Circuit::random();
             if warm {
                 // the gate-kind probabilities stay at their defaults here: `clifford_t` below derives
@@ -104,6 +113,19 @@ fn build_hist(gen: &Gen, seed: u64, seed_pos: u8, batch: u8, history: u8) -> Vec
                         .p_s(p[3] as f32 / 1000.0)
                         .p_t(p[4] as f32 / 1000.0);
                 }
+            }
+            for &(k, v) in tweaks {
+                let x = v as f32 / 1000.0;
+                match k {
+                    0 => b.p_cnot(x),
+                    1 => b.p_cz(x),
+                    2 => b.p_h(x),
+                    3 => b.p_s(x),
+                    4 => b.p_t(x),
+                    5 => b.with_cliffords(),
+                    6 => b.uniform(),
+                    _ => b.clifford_t(x),
+                };
             }
             if seed_pos == 1 {
                 b.seed(seed);
@@ -257,6 +279,45 @@ fn check_gate_arguments(c: &Circuit) -> Result<(), String> {
     Ok(())
 }
 
+/// The gate-kind probabilities (cnot, cz, h, s, t) a builder ends up with after the preset and
+/// the later setter calls, by the documented meaning of the setters (`with_cliffords`: the
+/// probability left over by T and CZ, split evenly between CNOT, H and S; `clifford_t(p)` =
+/// `p_t(p)` then `with_cliffords()`; `uniform()`: 0.2 each).
+fn effective_probs(p: &[u32; 5], preset: u8, tweaks: &[(u8, u32)]) -> [f32; 5] {
+    let mut m = [0.0f32; 5];
+    let with_cliffords = |m: &mut [f32; 5]| {
+        let q = (1.0 - m[4] - m[1]) / 3.0;
+        m[0] = q;
+        m[2] = q;
+        m[3] = q;
+    };
+    match preset {
+        1 => {
+            m[4] = p[4] as f32 / 1000.0;
+            with_cliffords(&mut m);
+        }
+        2 => m = [0.2; 5],
+        _ => {
+            for i in 0..5 {
+                m[i] = p[i] as f32 / 1000.0;
+            }
+        }
+    }
+    for &(k, v) in tweaks {
+        let x = v as f32 / 1000.0;
+        match k {
+            0..=4 => m[k as usize] = x,
+            5 => with_cliffords(&mut m),
+            6 => m = [0.2; 5],
+            _ => {
+                m[4] = x;
+                with_cliffords(&mut m);
+            }
+        }
+    }
+    m
+}
+
 fn check_random(c: &Circuit, qubits: usize, depth: usize, probs: [f32; 5]) -> Result<(), String> {
     if c.num_qubits() != qubits {
         return Err(format!("circuit has {} qubits, asked for {}", c.num_qubits(), qubits));
@@ -373,16 +434,8 @@ impl C19 {
             }
         }
         match (&sc.gen, obj) {
-            (Gen::Random { qubits, depth, p, preset }, Obj::Circ(c)) => {
-                let probs: [f32; 5] = match preset {
-                    1 => {
-                        let pt = p[4] as f32 / 1000.0;
-                        let q = (1.0 - pt - 0.0) / 3.0;
-                        [q, 0.0, q, q, pt]
-                    }
-                    2 => [0.2; 5],
-                    _ => [p[0] as f32 / 1000.0, p[1] as f32 / 1000.0, p[2] as f32 / 1000.0, p[3] as f32 / 1000.0, p[4] as f32 / 1000.0],
-                };
+            (Gen::Random { qubits, depth, p, preset, tweaks }, Obj::Circ(c)) => {
+                let probs = effective_probs(p, *preset, tweaks);
                 if let Err(why) = check_random(c, *qubits, *depth, probs) {
                     fail(out, "promise_broken", format!("random circuit (seed {}): {why}", sc.seed), "random");
                 }
@@ -620,7 +673,22 @@ impl Property for C19 {
                 if preset == 1 {
                     p[4] = d.choose("pt", 1001) as u32;
                 }
-                Gen::Random { qubits, depth, p, preset: if qubits == 1 { 0 } else { preset } }
+                let preset = if qubits == 1 { 0 } else { preset };
+                // later setter calls in a third of the runs (kept only if every probability stays
+                // in [0, 1] and their sum does not exceed 1: admissible parameters)
+                let mut tweaks: Vec<(u8, u32)> = vec![];
+                if qubits >= 2 && d.coin("tweaks", 1, 3) {
+                    for _ in 0..1 + d.choose("ntweaks", 3) {
+                        let k = d.choose("tweak.kind", 8) as u8;
+                        let v = if d.coin("tweak.zero", 1, 2) { 0 } else { d.choose("tweak.v", 401) as u32 };
+                        tweaks.push((k, v));
+                    }
+                    let e = effective_probs(&p, preset, &tweaks);
+                    if e.iter().any(|x| *x < 0.0 || *x > 1.0) || e.iter().sum::<f32>() > 1.0005 {
+                        tweaks.clear();
+                    }
+                }
+                Gen::Random { qubits, depth, p, preset, tweaks }
             }
             "hidden_shift" => {
                 let maxn = if tier == Tier::Thorough { 12 } else { 10 };
@@ -876,13 +944,16 @@ impl Property for C19 {
         let mut c = vec![];
         let with = |g: Gen| Sc { gen: g, ..sc.clone() };
         match &sc.gen {
-            Gen::Random { qubits, depth, p, preset } => {
+            Gen::Random { qubits, depth, p, preset, tweaks } => {
+                if !tweaks.is_empty() {
+                    c.push(with(Gen::Random { qubits: *qubits, depth: *depth, p: *p, preset: *preset, tweaks: tweaks[..tweaks.len() - 1].to_vec() }));
+                }
                 if *depth > 0 {
-                    c.push(with(Gen::Random { qubits: *qubits, depth: depth / 2, p: *p, preset: *preset }));
-                    c.push(with(Gen::Random { qubits: *qubits, depth: depth - 1, p: *p, preset: *preset }));
+                    c.push(with(Gen::Random { qubits: *qubits, depth: depth / 2, p: *p, preset: *preset, tweaks: tweaks.clone() }));
+                    c.push(with(Gen::Random { qubits: *qubits, depth: depth - 1, p: *p, preset: *preset, tweaks: tweaks.clone() }));
                 }
                 if *qubits > 1 {
-                    c.push(with(Gen::Random { qubits: qubits - 1, depth: *depth, p: *p, preset: *preset }));
+                    c.push(with(Gen::Random { qubits: qubits - 1, depth: *depth, p: *p, preset: *preset, tweaks: tweaks.clone() }));
                 }
             }
             Gen::HiddenShift { qubits, clifford_depth, n_ccz } => {
